@@ -5,6 +5,7 @@ STRING constructor of NumericValue; `EncodeDecimal` shows that round trip is the
 -/
 import CoCoVerif.Lemmas.EncodeDecimal
 import CoCoVerif.Model.Program
+import CoCoVerif.Lemmas.AddrOther
 
 namespace CoCo.Asm
 open CoCo
@@ -151,5 +152,49 @@ theorem addrOffset_num_addr (ss : List Stmt) (ai a k : Nat) (ma mk m : Mode) (hk
   cases addrArith op a k with
   | none => rfl
   | some z => exact numericOfInt_ext z
+
+/-- `addrCombine` (the arithmetic half of `addrOffset`, see Lemmas/AddrOther.lean) in closed form -/
+theorem addrCombine_eq (op : Char) (a k : Nat) :
+    addrCombine op a k = (match addrArith op a k with | none => .diag | some z => addrResult z) := by
+  change (match addrArith op a k with
+    | none => Outcome.diag
+    | some z => (match numericOfInt z (some 4) .extended with | .ok nv => Outcome.ok nv | .error _ => .diag)) = _
+  cases addrArith op a k with
+  | none => rfl
+  | some z => exact numericOfInt_ext z
+
+/-- label `op` label (since fix 9045646): the constant is the ADDRESS of the second label's statement, so the
+result is computed from both addresses, `a_i op a_j` (before the repair the statement INDEX `aj` was used) -/
+theorem addrOffset_addr_addr (ss : List Stmt) (ai aj a b : Nat) (ma mb m : Mode) (ae : Bool) (op : Char)
+    (h : addrIntOf ss ai = some a) (h' : addrIntOf ss aj = some b) :
+    addrOffset ss (.expr (.address ai ma) (.address aj mb) op m ae) =
+      (match addrArith op a b with | none => .diag | some z => addrResult z) := by
+  rw [addrOffset_expr]
+  simp only [Value.isAddress, if_true, Value.int?, addrOther_address, h, h']
+  exact addrCombine_eq op a b
+
+/-- a label expression whose other operand is neither a number nor a label (a symbol that stayed a string, a
+multi-byte value, ...): "unresolved expression", a diagnostic -- whatever the statement list is.
+Label on the left: -/
+theorem addrOffset_addr_other (ss : List Stmt) (ai : Nat) (ma m : Mode) (ae : Bool) (op : Char) (r : Value)
+    (hr1 : r.isAddress = false) (hr2 : r.isNumeric = false) :
+    addrOffset ss (.expr (.address ai ma) r op m ae) = .diag := by
+  rw [addrOffset_expr]
+  simp only [Value.isAddress, if_true, addrOther_other ss r hr1 hr2]
+
+/-- ... and label on the right -/
+theorem addrOffset_other_addr (ss : List Stmt) (ai : Nat) (ma m : Mode) (ae : Bool) (op : Char) (l : Value)
+    (hl1 : l.isAddress = false) (hl2 : l.isNumeric = false) :
+    addrOffset ss (.expr l (.address ai ma) op m ae) = .diag := by
+  rw [addrOffset_expr]
+  simp only [hl1, Bool.false_eq_true, if_false, addrOther_other ss l hl1 hl2]
+
+/-- a second label that names no statement is still an internal error (it cannot happen after `buildSymTab`:
+every `.address j` of the symbol table is a statement index) -/
+theorem addrOffset_addr_addr_missing (ss : List Stmt) (ai aj : Nat) (ma mb m : Mode) (ae : Bool) (op : Char)
+    (h' : addrIntOf ss aj = none) :
+    addrOffset ss (.expr (.address ai ma) (.address aj mb) op m ae) = .internal := by
+  rw [addrOffset_expr]
+  simp only [Value.isAddress, if_true, Value.int?, addrOther_address, h']
 
 end CoCo.Asm
